@@ -401,7 +401,7 @@ def gen_cases(ctx):
                 cases.append(("%scw W %s %s %s Z" % (pre, " ".join(["s0"] * k), " ".join("a%d" % i for i in range(k)), variant), "long-backlog"))
     # an HTTP call that is answered but whose (large) response is still being written when the stop signal comes: the client is
     # not reading, nothing else is in flight anywhere on the server; the answer must still arrive in full before `stopped`
-    for pad in ctx.scale([8192], [4096, 8192, 16384]):
+    for pad in ctx.scale([6144, 8192, 12288], [4096, 6144, 8192, 12288, 16384, 24576]):
         cases.append(("P%d ch W s0 a0 q0 r0 f0 p p S p p g0 y0 Z" % pad, "http-answered-unsent"))
         cases.append(("P%d ch W s0 a0 q0 r0 f0 p S S p g0 y0 Z" % pad, "http-answered-unsent"))
         cases.append(("P%d ch ch W s0 a0 q0 r0 f0 p p S p s1 p g0 y0 Z" % pad, "http-answered-unsent"))
